@@ -71,7 +71,7 @@ ScanStepT(e) ==
 
 \* the views of one file agree on tags and on strings
 EndStep(e) ==
-  LET ds == {p \in scans \X scans : p[1] < p[2]}
+  LET ds == {p \in Elems(scans) \X Elems(scans) : p[1] < p[2]}
       dt == {p \in ds : Log[p[1]].tags # Log[p[2]].tags}
       dstr == {p \in ds : Log[p[1]].strs # Log[p[2]].strs} IN
   /\ bad' = bad \cup {<<e.f, p[2], "agree.tags", p[1]>> : p \in dt} \cup {<<e.f, p[2], "agree.strings", p[1]>> : p \in dstr}
